@@ -722,6 +722,7 @@ func tiers(c *fw.Ctx, runTLC tlcRunner, cover map[string]int64) error {
 		ex("multi3.cfg", "Spec", 3, 3, 2, 2, 1, "multi", invGen, strOnly) // 3 package dirs, some path in >= 2 places
 		ex("graphs.cfg", "Spec", 2, 3, 3, 2, 1, "all", invGen, strOnly)   // flat trees, every import graph with <= 3 statements
 		ex("nested3.cfg", "Spec", 3, 3, 2, 2, 1, "nested", invGen, strOnly) // 3 package dirs, one below another, a third under the path that joins them
+		ex("chain3.cfg", "Spec", 3, 3, 3, 1, 1, "chain", invGen, bothKinds)  // 3 package dirs: one copy of a path leads to another copy through a third package, chains of 3 imports
 	} else {
 		ex("anyorder.cfg", "SpecAny", 2, 3, 4, 3, 1, "all", invAny, bothKinds)
 		ex("trees2.cfg", "Spec", 3, 2, 3, 2, 2, "all", invGen, bothKinds)
@@ -729,6 +730,7 @@ func tiers(c *fw.Ctx, runTLC tlcRunner, cover map[string]int64) error {
 		ex("triple4.cfg", "Spec", 3, 4, 3, 2, 1, "triple", invGen, bothKinds) // 4 package dirs, some path in 3 places
 		ex("graphs.cfg", "Spec", 2, 4, 4, 3, 1, "all", invGen, bothKinds)     // flat trees, <= 4 packages, every DAG / cyclic graph with <= 4 statements
 		ex("nested3.cfg", "Spec", 3, 3, 3, 2, 1, "nested", invGen, bothKinds)
+		ex("chain4.cfg", "Spec", 3, 4, 4, 1, 1, "chain", invGen, bothKinds) // 4 package dirs, chains of 4 imports: the chain starts from a string main too
 	}
 	nsim := c.Pick(3, 24)
 	for j := 0; j < nsim; j++ {
